@@ -17,8 +17,8 @@ class ScriptedRNG:
     'uniform' feeds rand/uniform/random.  A queue entry is a flat list of floats consumed in C order.
     When a queue is exhausted the fallback (a seeded RandomState) is used if given, else HarnessError."""
 
-    def __init__(self, normal=None, uniform=None, fallback_seed=None, record_only=False):
-        self.q = {"normal": list(normal or []), "uniform": list(uniform or [])}
+    def __init__(self, normal=None, uniform=None, fallback_seed=None, record_only=False, exponential=None):
+        self.q = {"normal": list(normal or []), "uniform": list(uniform or []), "exponential": list(exponential or [])}
         self.fallback = np.random.RandomState(fallback_seed) if fallback_seed is not None else None
         self.calls = []
         self.record_only = record_only
@@ -86,6 +86,11 @@ class ScriptedRNG:
 
     def exponential(self, scale=1.0, size=None):
         self.calls.append(("exponential", {"scale": scale, "size": size}))
+        n = 1 if size is None else int(np.prod(size))
+        if not self.record_only and len(self.q["exponential"]) >= n:
+            vals = np.array(self.q["exponential"][:n], dtype=float) * scale
+            del self.q["exponential"][:n]
+            return float(vals[0]) if size is None else vals.reshape(size if hasattr(size, "__len__") else (size,))
         if self.fallback is None:
             raise HarnessError("exponential draw without fallback stream")
         return self.fallback.exponential(scale, size)
